@@ -18,6 +18,11 @@ from .. import coqio as q
 #                       "bad": None | [k, exc]}]    bad (optional): evaluating the detail at position k of getDetails() raises exc
 #        | ["onexc", h] | ["force"] | ["xfailcall", r, exc|None] | ["raise", exc]
 #        | ["inserthandler", cls, outcome]        self.exception_handlers.insert(0, (cls, handler reporting outcome))
+#        | ["peek", name]                         the body reads its own detail `name` now, if it has one (no effect)
+#   patch keys (coq/Model/Run.v `parent`): 3*n + l, n = attribute number, l = 0 the instance `inst`, 1 its class Sub,
+#        2 Sub's base class Base (getattr falls back inst -> Sub -> Base); 30..32 attributes of inst served by a
+#        property (setter + deleter) of Sub; 33..35 attributes of inst held in slots declared by Base (Sub has a __dict__)
+#   onexc handler numbers: an odd-numbered handler also reads the bytes of every detail the test has at that moment
 #   prog : {"skip": None | [where, r], "xfail": bool, "setup": {"tok","acts","up"}, "body": {"tok","acts"},
 #           "teardown": {"tok","acts","up"}, "handlers": [[cls, outcome], ...]}
 #          up: "first" | "last" (where the upcall is made) | "none"
@@ -38,6 +43,10 @@ FLAVOURS = ["F26", "F27", "FExtended", "FTwisted", "FTestResult", "FStream", "FN
 # what a cell holding value v yields: chunks of bytes (empty, multi-chunk, not UTF-8, ...)
 CHUNKS = {0: [], 1: [b"ab", b"", b"cd"], 2: [b"\xff\xfe\x00"], 3: [b"three"], 4: [b"", b"4", b""], 5: [b"five", b"5"]}
 VALUE_OF = {b"".join(c): v for v, c in sorted(CHUNKS.items(), reverse=True)}   # b"" -> 0
+PROP_KEYS = (30, 31, 32)
+SLOT_KEYS = (33, 34, 35)
+UNIVERSE = list(range(9)) + list(PROP_KEYS) + list(SLOT_KEYS)      # coq/Model/Run.v universe
+_MISSING = object()
 
 
 def name_str(n):
@@ -78,15 +87,89 @@ class _Env:
         self.names = {v: k for k, v in self.classes.items()}
         env = self
 
-        class Scratch:
+        self.contents = {}
+
+        # the patch targets: an instance, its class, the class's base class; every setattr / delattr on any of
+        # them is logged with the key of (object, name)
+        class Meta(type):
+            def __setattr__(cls, k, v):
+                env.log.append(["set", env.key_of(cls, k), v])
+                type.__setattr__(cls, k, v)
+
+            def __delattr__(cls, k):
+                env.log.append(["del", env.key_of(cls, k)])
+                type.__delattr__(cls, k)
+
+        def backed(name):
+            # an attribute computed through a property: getter, setter, deleter over a private entry
+            def get(self):
+                try:
+                    return self.__dict__["_" + name]
+                except KeyError:
+                    raise AttributeError(name)
+
+            def set_(self, v):
+                self.__dict__["_" + name] = v
+
+            def del_(self):
+                try:
+                    del self.__dict__["_" + name]
+                except KeyError:
+                    raise AttributeError(name)
+            return property(get, set_, del_)
+
+        class Base(metaclass=Meta):
+            __slots__ = tuple("s%d" % k for k in SLOT_KEYS)
+
+        class Sub(Base):                      # no __slots__: its instances have a __dict__ as well
             def __setattr__(self, k, v):
-                env.log.append(["set", int(k[1:]), v])
+                env.log.append(["set", env.key_of(self, k), v])
                 object.__setattr__(self, k, v)
 
             def __delattr__(self, k):
-                env.log.append(["del", int(k[1:])])
+                env.log.append(["del", env.key_of(self, k)])
                 object.__delattr__(self, k)
-        self.scratch = Scratch()
+            for _k in PROP_KEYS:
+                locals()["p%d" % _k] = backed("p%d" % _k)
+            del _k
+        self.Base, self.Sub = Base, Sub
+        self.scratch = Sub()
+
+    def target(self, key):
+        """(object, attribute name) of a patch key"""
+        if key in PROP_KEYS:
+            return self.scratch, "p%d" % key
+        if key in SLOT_KEYS:
+            return self.scratch, "s%d" % key
+        return [self.scratch, self.Sub, self.Base][key % 3], "a%d" % (key // 3)
+
+    def key_of(self, obj, name):
+        if name[0] in "ps":
+            return int(name[1:])
+        return 3 * int(name[1:]) + (2 if obj is self.Base else 1 if obj is self.Sub else 0)
+
+    def set_initial(self, key, v):
+        """an attribute present before the test (not logged)"""
+        obj, name = self.target(key)
+        if isinstance(obj, type):
+            type.__setattr__(obj, name, v)
+        else:
+            object.__setattr__(obj, name, v)
+
+    def namespaces(self):
+        """what every target holds ITSELF: [[key, value], ...] in the order of Model.Run.universe - the entry of
+        vars(obj) for an ordinary attribute (an inherited value does not count), what getattr finds for an
+        attribute served by a property or a slot"""
+        out = []
+        for key in UNIVERSE:
+            obj, name = self.target(key)
+            if key < 30:
+                v = vars(obj).get(name, _MISSING)
+            else:
+                v = getattr(obj, name, _MISSING)
+            if v is not _MISSING:
+                out.append([key, v])
+        return out
 
     def cls(self, c):
         if isinstance(c, str):
@@ -122,10 +205,14 @@ class _Env:
         return k("r%d" % e[2]) if e[2] is not None else k()
 
     def content(self, loc):
+        """the Content of a live source (cell loc); the source hands out the same object every time"""
         from testtools.content import Content
         from testtools.content_type import ContentType
         env = self
-        return Content(ContentType("application", "octet-stream"), lambda: list(CHUNKS[env.cells.get(loc, 0)]))
+        if loc not in self.contents:
+            self.contents[loc] = Content(ContentType("application", "octet-stream"),
+                                         lambda: list(CHUNKS[env.cells.get(loc, 0)]))
+        return self.contents[loc]
 
     def bad_content(self, e):
         """a content whose evaluation raises (a log file that is gone when it is read)"""
@@ -201,12 +288,21 @@ def _exec(env, case, acts):
                 _exec(env, case, body)
             case.addCleanup(f)
         elif k == "patch":
-            case.patch(env.scratch, "a%d" % a[1], a[2])
+            obj, name = env.target(a[1])
+            case.patch(obj, name, a[2])
+        elif k == "peek":
+            c = case.getDetails().get(name_str(a[1]))
+            if c is not None:
+                b"".join(c.iter_bytes())
         elif k == "fixture":
             case.useFixture(_make_fixture(env, a[1]))
         elif k == "onexc":
             def h(exc_info, h=a[1]):
                 env.trace.append(["H", h, env.cls_name(exc_info[0])])
+                if h % 2:
+                    # e.g. decides from the log whether more diagnostics are worth collecting
+                    for c in list(case.getDetails().values()):
+                        b"".join(c.iter_bytes())
             case.addOnException(h)
         elif k == "onexcraise":
             # an addOnException handler that itself raises while the exception of class a[1] is processed
@@ -237,12 +333,15 @@ def _outcome_handler(o):
 
 
 def build(env, prog):
-    """the TestCase instance of a program"""
+    """the TestCase instance of a program.  The stages follow env.prog, which a history of runs on the one
+    instance changes from run to run; decorators and the handlers present before the first run are prog's."""
     import unittest
     import testtools
+    env.prog = prog
 
     class T(testtools.TestCase):
         def setUp(self):
+            prog = env.prog
             if prog["setup"]["up"] == "first":
                 super().setUp()
             env.log.append(["t", prog["setup"]["tok"]])
@@ -251,6 +350,7 @@ def build(env, prog):
                 super().setUp()
 
         def tearDown(self):
+            prog = env.prog
             if prog["teardown"]["up"] == "first":
                 super().tearDown()
             env.log.append(["t", prog["teardown"]["tok"]])
@@ -259,6 +359,7 @@ def build(env, prog):
                 super().tearDown()
 
         def test_x(self):
+            prog = env.prog
             env.log.append(["t", prog["body"]["tok"]])
             _exec(env, self, prog["body"]["acts"])
 
@@ -385,14 +486,21 @@ def raised_kind(e):
 
 def run_program(prog, flavour="FExtended", attrs0=(), runs=1):
     """Runs the program `runs` times on one TestCase instance; one observation dict per run."""
+    return run_history([prog] * runs, flavour, attrs0)
+
+
+def run_history(progs, flavour="FExtended", attrs0=()):
+    """One TestCase instance (class, decorators and initial handlers of progs[0]) run len(progs) times, its
+    stages following progs[k] in run k; one observation dict per run."""
     import testtools
     assert testtools
     env = _Env()
     for a, v in attrs0:
-        object.__setattr__(env.scratch, "a%d" % a, v)
-    case = build(env, prog)
+        env.set_initial(a, v)
+    case = build(env, progs[0])
     out = []
-    for _ in range(runs):
+    for prog in progs:
+        env.prog = prog
         del env.log[:]
         del env.trace[:]
         result, events = make_result(env, flavour)
@@ -405,7 +513,7 @@ def run_program(prog, flavour="FExtended", attrs0=(), runs=1):
             raised = e
         o = {"trace": events(), "raised": raised_kind(raised), "log": [list(x) for x in env.log],
              "leftover": len(case._cleanups),
-             "attrs": [[int(k[1:]), v] for k, v in vars(env.scratch).items()]}
+             "attrs": env.namespaces()}
         if hasattr(result, "wasSuccessful"):
             o["ok"] = bool(result.wasSuccessful())
         out.append(o)
@@ -468,6 +576,8 @@ def t_act(a):
         return "(ARaise %s)" % t_exc(a[1])
     if k == "inserthandler":
         return "(AInsertHandler %s %s)" % (t_cls(a[1]), COQ_OUT[a[2]])
+    if k == "peek":
+        return "(APeek %s)" % t_name(a[1])
     raise AssertionError(a)
 
 
@@ -752,6 +862,21 @@ def rand_fixture(rng, details=True, bad=False):
     return f
 
 
+# patch targets: mostly attributes of the instance itself (3 names), some of its class and of the base class (the same
+# names: inherited values, shadowing), properties and inherited slots of the instance
+PATCH_POOL = [0, 0, 0, 3, 3, 3, 6, 6, 1, 4, 7, 2, 5, 30, 30, 31, 33, 33, 34]
+
+
+def rand_attrs(rng):
+    """the namespaces before the test: key -> value; value 0 = the attribute exists and is None"""
+    out = []
+    for k in UNIVERSE:
+        pr = 0.45 if k % 3 == 0 and k < 30 else 0.2 if k < 30 else 0.5 if k in (30, 31, 33, 34) else 0.0
+        if rng.random() < pr:
+            out.append([k, rng.randint(0, 3)])
+    return out
+
+
 def rand_acts(rng, depth, feats, p_raise=0.35, maxlen=3):
     """feats: set of optional features: details, patch, fixture, onexc, cells"""
     acts = []
@@ -760,7 +885,7 @@ def rand_acts(rng, depth, feats, p_raise=0.35, maxlen=3):
         if r < 0.30 and depth > 0:
             acts.append(["cleanup", 0, rand_acts(rng, depth - 1, feats, p_raise, maxlen)])
         elif r < 0.40 and "patch" in feats:
-            acts.append(["patch", rng.randint(0, 2), rng.randint(1, 4)])
+            acts.append(["patch", rng.choice(PATCH_POOL), rng.randint(1, 4)])
         elif r < 0.50 and "fixture" in feats:
             acts.append(["fixture", rand_fixture(rng, "details" in feats, "badfx" in feats)])
         elif r < 0.60 and "details" in feats:
@@ -782,6 +907,8 @@ def rand_acts(rng, depth, feats, p_raise=0.35, maxlen=3):
             if "insert-any" in feats:
                 pool = pool + [CUSTOMBASE, "Kbd", SUBKBD, "SysExit", "BaseException"]
             acts.append(["inserthandler", rng.choice(pool), rng.choice(OUTCOMES[1:])])
+        elif r < 0.97 and "peek" in feats:
+            acts.append(["peek", rand_name(rng)])
     if rng.random() < p_raise:
         r = rng.random()
         if r < 0.70:
@@ -893,7 +1020,8 @@ def shrink_prog(p):
 def prog_distribution(progs):
     d = {"raising_acts": {}, "cleanup_depth": {}, "with_base_exception": 0, "with_multi": 0, "with_handlers": 0,
          "with_fixture": 0, "with_patch": 0, "with_details": 0, "skip_decorated": 0, "xfail_decorated": 0,
-         "missing_upcall": 0, "with_expect_or_force": 0, "with_handler_inserted_while_running": 0}
+         "missing_upcall": 0, "with_expect_or_force": 0, "with_handler_inserted_while_running": 0,
+         "with_peek": 0, "patch_target_kinds": {}}
     import json
     for p in progs:
         n = min(len(raising_acts(p)), 6)
@@ -912,4 +1040,10 @@ def prog_distribution(progs):
         d["missing_upcall"] += p["setup"]["up"] == "none" or p["teardown"]["up"] == "none"
         d["with_expect_or_force"] += '"expect"' in s or '"force"' in s
         d["with_handler_inserted_while_running"] += '"inserthandler"' in s
+        d["with_peek"] += '"peek"' in s or any(a[0] == "onexc" and a[1] % 2 for a in all_acts(p))
+        for a in all_acts(p):
+            if a[0] == "patch":
+                kind = ("property" if a[1] in PROP_KEYS else "slot" if a[1] in SLOT_KEYS else
+                        ["instance", "class", "base class"][a[1] % 3])
+                d["patch_target_kinds"][kind] = d["patch_target_kinds"].get(kind, 0) + 1
     return d
